@@ -814,25 +814,60 @@ fn run_long(out: &mut Out, rng: &mut Rng, work: &str) -> BTreeMap<String, u64> {
 	let mut trunk = vec![0usize];
 	let mut spendable: Vec<(usize, u64)> = vec![(0, 0)];
 	let mut spent_plain: Vec<usize> = vec![];
+	// output leaf index of every output and the height at which a leaf was spent, so that the
+	// late blocks can aim at the spend patterns of the property (a leaf whose sibling was spent
+	// long before, both siblings, whole small subtrees)
+	let mut leaf_of: BTreeMap<usize, u64> = BTreeMap::new();
+	let mut spent_at: BTreeMap<u64, u64> = BTreeMap::new();
+	let mut sibling_pattern = 0u64;
 	for h in 1..=n_trunk {
 		let mut specs = vec![];
-		let nsp = if h >= 4 { rng.below(3) } else { 0 };
+		let nsp = if h >= 4 { rng.range(0, 2) + if h + 12 > n_trunk { 1 } else { 0 } } else { 0 };
 		for _ in 0..nsp {
-			if let Some(pos) = spendable.iter().position(|(o, c)| !kit.outs[*o].coinbase || h >= *c + MATURITY) {
-				let (o, _) = spendable.remove(pos);
-				let v = kit.outs[o].value;
-				if v < 10 {
-					continue;
+			let cands: Vec<usize> = spendable
+				.iter()
+				.enumerate()
+				.filter(|(_, (o, c))| !kit.outs[*o].coinbase || h >= *c + MATURITY)
+				.map(|(i, _)| i)
+				.collect();
+			if cands.is_empty() {
+				break;
+			}
+			// late blocks: prefer a leaf whose sibling leaf was spent at least 25 blocks ago
+			let mut pick = *rng.pick(&cands);
+			if h + 12 > n_trunk {
+				let aimed: Vec<usize> = cands
+					.iter()
+					.cloned()
+					.filter(|i| {
+						let o = spendable[*i].0;
+						match leaf_of.get(&o) {
+							Some(idx) => spent_at.get(&(idx ^ 1)).map(|sh| *sh + 25 <= h).unwrap_or(false),
+							None => false,
+						}
+					})
+					.collect();
+				if !aimed.is_empty() {
+					pick = *rng.pick(&aimed);
+					sibling_pattern += 1;
 				}
-				if !kit.outs[o].coinbase {
-					spent_plain.push(o);
-				}
-				if rng.chance(1, 3) {
-					specs.push(TxSpec { inputs: vec![o], outputs: vec![(v - 1, None)], kernel: KSpec::Plain(1) });
-				} else {
-					let a = rng.range(1, v / 2);
-					specs.push(TxSpec { inputs: vec![o], outputs: vec![(a, None), (v - a - 2, None)], kernel: KSpec::Plain(2) });
-				}
+			}
+			let (o, _) = spendable.remove(pick);
+			let v = kit.outs[o].value;
+			if v < 10 {
+				continue;
+			}
+			if !kit.outs[o].coinbase {
+				spent_plain.push(o);
+			}
+			if let Some(idx) = leaf_of.get(&o) {
+				spent_at.insert(*idx, h);
+			}
+			if rng.chance(1, 3) {
+				specs.push(TxSpec { inputs: vec![o], outputs: vec![(v - 1, None)], kernel: KSpec::Plain(1) });
+			} else {
+				let a = rng.range(1, v / 2);
+				specs.push(TxSpec { inputs: vec![o], outputs: vec![(a, None), (v - a - 2, None)], kernel: KSpec::Plain(2) });
 			}
 		}
 		let before = kit.outs.len();
@@ -842,6 +877,9 @@ fn run_long(out: &mut Out, rng: &mut Rng, work: &str) -> BTreeMap<String, u64> {
 				trunk.push(id);
 				for o in before..kit.outs.len() {
 					spendable.push((o, h));
+					if let Ok(Some((_, cp))) = kit.builder().get_unspent(kit.outs[o].commit) {
+						leaf_of.insert(o, grin_core::core::pmmr::n_leaves(cp.pos) - 1);
+					}
 				}
 			}
 			Err(e) => {
@@ -849,12 +887,14 @@ fn run_long(out: &mut Out, rng: &mut Rng, work: &str) -> BTreeMap<String, u64> {
 			}
 		}
 	}
-	// a competing branch of depth 3 forking 4 blocks below the tip (inside the horizon), heavier
+	*stats.entry("long:late-spends-whose-sibling-was-spent-25+-blocks-earlier".into()).or_insert(0) += sibling_pattern;
+	// a competing branch of depth 3 forking 11 blocks below the tip (inside the horizon), heavier:
+	// it un-spends everything the last 11 trunk blocks spent
 	let n = trunk.len() - 1;
 	let mut fork = vec![];
-	let mut t = trunk[n - 4];
+	let mut t = trunk[n - 11];
 	for d in 0..3 {
-		match kit.new_block(t, if d == 2 { 30 } else { 2 }, &[]) {
+		match kit.new_block(t, if d == 2 { 60 } else { 2 }, &[]) {
 			Ok(id) => {
 				fork.push(id);
 				t = id;
